@@ -139,6 +139,7 @@ type params struct {
 	iobuf   int
 	connbuf int
 	pickle  bool
+	flush   bool // an operator flushes the route by hand (Route.Flush) at any moment of the traffic
 }
 
 func (p params) String() string {
@@ -146,7 +147,7 @@ func (p params) String() string {
 	for _, l := range p.lines {
 		ls = append(ls, fmt.Sprint(len(l)))
 	}
-	return fmt.Sprintf("lines(len)=%s iobuf=%d connbuf=%d pickle=%v", strings.Join(ls, ","), p.iobuf, p.connbuf, p.pickle)
+	return fmt.Sprintf("lines(len)=%s iobuf=%d connbuf=%d pickle=%v manualflush=%v", strings.Join(ls, ","), p.iobuf, p.connbuf, p.pickle, p.flush)
 }
 
 type pathExec struct {
@@ -173,6 +174,15 @@ func (e *pathExec) Body() {
 	vrt.Quiesce() // the connection is up
 	key := d.Key
 	c0 := counters(key)
+	flushed := !e.p.flush
+	if e.p.flush {
+		vrt.GoNamed("manual-flush", func() {
+			if err := rt.Flush(); err != nil && e.viol == "" {
+				e.viol = "Route.Flush on a healthy connection returned " + err.Error()
+			}
+			flushed = true
+		})
+	}
 	for i, l := range e.p.lines {
 		if i > 0 {
 			s := vrt.Choose(2, "sleep across a flush tick")
@@ -183,9 +193,13 @@ func (e *pathExec) Body() {
 		}
 		rt.Dispatch([]byte(l))
 	}
+	vrt.WaitUntil("manual flush returned", func() bool { return flushed })
 	vrt.Sleep(2500 * time.Millisecond) // at least two more flush ticks
 	vrt.Quiesce()
 	c1 := counters(key)
+	if e.viol != "" {
+		return
+	}
 	slow := c1["slow_conn"] - c0["slow_conn"]
 	down := c1["conn_down"] - c0["conn_down"]
 	outN := c1["out"] - c0["out"]
@@ -296,6 +310,14 @@ func main() {
 					p := params{lines: ls, iobuf: iobuf, connbuf: connbuf, pickle: pickle}
 					scns = append(scns, &vrt.Scenario{Name: "path " + p.String(), Cfg: vrt.Config{MaxSteps: 20000, Horizon: time.Minute}, Model: vrt.CostDelay, Bound: bound,
 						New: func() vrt.Exec { return &pathExec{p: p} }})
+					if !pickle && connbuf == 2 && (iobuf == 8 || iobuf == 64) {
+						q := p
+						q.flush = true
+						// statement-level interleaving inside the buffered writer: whoever flushes must not run
+						// into a Write that is in progress on the connection's own goroutine
+						scns = append(scns, &vrt.Scenario{Name: "path " + q.String(), Cfg: vrt.Config{MaxSteps: 20000, Horizon: time.Minute, Groups: map[string]bool{"c05": true}}, Model: vrt.CostDelay, Bound: bound,
+							New: func() vrt.Exec { return &pathExec{p: q} }})
+					}
 				}
 			}
 		}
